@@ -1,28 +1,114 @@
 package main
 
 import (
+	"encoding/json"
 	"flag"
 	"fmt"
 	"go/types"
 	"os"
+	"path/filepath"
+	"sort"
 	"strings"
+	"time"
 
 	"utilverif/internal/core"
+	"utilverif/internal/props"
+	"utilverif/internal/rules"
 )
+
+func verifDir() string {
+	if d := os.Getenv("VERIF_DIR"); d != "" {
+		return d
+	}
+	exe, err := os.Executable()
+	if err == nil {
+		// <verif>/bin/utilcheck
+		return filepath.Dir(filepath.Dir(exe))
+	}
+	return "/verif"
+}
 
 func main() {
 	repo := flag.String("repo", "/repo", "repository root")
+	property := flag.String("property", "", "property id to check (C01 … C20)")
+	tier := flag.String("tier", "", "quick or thorough (default: $VERIF_TIER or quick)")
+	replay := flag.String("replay", "", "replay file written by an earlier run")
+	evdir := flag.String("evidence", "", "evidence directory (default <verif>/evidence)")
 	dump := flag.String("dump", "", "debug: dump the paths of pkg:Recv.Func (e.g. csync:Mutex.Lock)")
 	follow := flag.String("follow", "", "debug: comma separated function names to inline (or 'all')")
 	access := flag.Bool("access", false, "debug: emit access events")
 	maxp := flag.Int("n", 5, "debug: number of paths to print")
+	rule := flag.String("rule", "", "debug: run one rule and print its obligations")
+	scope := flag.String("scope", "", "debug: comma separated package scope")
+	verbose := flag.Bool("v", false, "print discharged obligations too")
+	genman := flag.Bool("gen-manifest", false, "maintenance: regenerate MANIFEST.json from the property table")
 	flag.Parse()
+	if *genman {
+		if err := genManifest(verifDir()); err != nil {
+			fmt.Fprintln(os.Stderr, err)
+			os.Exit(2)
+		}
+		return
+	}
+	if *tier == "" {
+		*tier = os.Getenv("VERIF_TIER")
+	}
+	if *tier != "thorough" {
+		*tier = "quick"
+	}
+	vdir := verifDir()
+	if *evdir == "" {
+		*evdir = filepath.Join(vdir, "evidence")
+	}
+	if *replay != "" {
+		b, err := os.ReadFile(*replay)
+		if err != nil {
+			fmt.Fprintln(os.Stderr, err)
+			os.Exit(2)
+		}
+		var rp struct {
+			Property   string
+			Obligation rules.Obligation
+		}
+		if err := json.Unmarshal(b, &rp); err != nil {
+			fmt.Fprintln(os.Stderr, err)
+			os.Exit(2)
+		}
+		os.Exit(checkProperty(*repo, vdir, *evdir, rp.Property, *tier, true, &rp.Obligation))
+	}
+	if *property != "" {
+		os.Exit(checkProperty(*repo, vdir, *evdir, *property, *tier, *verbose, nil))
+	}
 	prog, err := core.Load(*repo)
 	if err != nil {
 		fmt.Fprintln(os.Stderr, err)
 		os.Exit(2)
 	}
 	prog.RegisterFieldOwners()
+	if *rule != "" {
+		c := rules.NewCtx(prog)
+		if *scope != "" {
+			c.Scope = map[string]bool{}
+			for _, p := range strings.Split(*scope, ",") {
+				c.Scope[p] = true
+			}
+		}
+		rules.Get(*rule).Run(c)
+		nv := 0
+		for _, o := range c.Obls {
+			if o.Verdict != rules.Discharged || *verbose {
+				fmt.Printf("%-10s %-10s %-60s %s\n    %s\n", o.Verdict, o.Rule, o.Construct, o.Pos, o.Detail)
+			}
+			if o.Verdict != rules.Discharged {
+				nv++
+			}
+		}
+		for _, n := range c.Notes {
+			fmt.Println("note:", n)
+		}
+		fmt.Printf("obligations=%d not-discharged=%d funcs=%d paths=%d\n", len(c.Obls), nv, len(c.FuncsWalked), c.PathsWalked)
+		return
+	}
 	if *dump != "" {
 		parts := strings.SplitN(*dump, ":", 2)
 		recv, name := "", parts[1]
@@ -51,5 +137,92 @@ func main() {
 			}
 		})
 		fmt.Println("paths:", total, "err:", err)
+		return
 	}
+	flag.Usage()
+	os.Exit(2)
+}
+
+// checkProperty runs one property check and returns the process exit status.
+func checkProperty(repo, vdir, evdir, id, tier string, verbose bool, only *rules.Obligation) int {
+	p := props.Table[id]
+	if p == nil {
+		fmt.Printf("property %s is not claimed by this checker (see MANIFEST.json not_applicable)\n", id)
+		return 2
+	}
+	t0 := time.Now()
+	prog, err := core.Load(repo)
+	if err != nil {
+		// a tree that does not load cannot be judged: that is a failure of the check, never a pass
+		fmt.Println(err)
+		os.MkdirAll(filepath.Join(evdir, "replay"), 0o755)
+		rp := filepath.Join(evdir, "replay", id+"-1.json")
+		b, _ := json.MarshalIndent(map[string]interface{}{"property": id, "obligation": rules.Obligation{Rule: "load", Construct: "packages.Load", Verdict: rules.Undecided, Detail: err.Error()}}, "", " ")
+		os.WriteFile(rp, b, 0o644)
+		fmt.Printf("VIOLATION property=%s replay=%s\n", id, rp)
+		return 1
+	}
+	prog.RegisterFieldOwners()
+	loadWall := time.Since(t0).Seconds()
+	findings, err := props.LoadFindings(filepath.Join(vdir, "known-findings.json"))
+	if err != nil {
+		fmt.Println("cannot read known-findings.json:", err)
+		return 2
+	}
+	res := props.Run(prog, p, findings)
+	if tier == "thorough" {
+		thorough(repo, vdir, prog, p, res)
+	}
+	if only != nil {
+		found := false
+		for _, o := range res.Obls {
+			if o.Rule == only.Rule && o.Construct == only.Construct {
+				found = true
+				fmt.Printf("replay: %s %s at %s: %s\n  %s\n", o.Rule, o.Construct, o.Pos, o.Verdict, o.Detail)
+				for _, w := range o.Witness {
+					fmt.Println("    ", w)
+				}
+				if o.Verdict != rules.Discharged {
+					fmt.Printf("VIOLATION property=%s replay=%s\n", id, "(replayed)")
+					return 1
+				}
+			}
+		}
+		if !found {
+			fmt.Printf("replay: obligation %s %s no longer exists on this tree\n", only.Rule, only.Construct)
+		}
+		return 0
+	}
+	replays, err := props.WriteEvidence(evdir, prog, res, tier, loadWall)
+	if err != nil {
+		fmt.Println("cannot write evidence:", err)
+		return 2
+	}
+	counts := map[string]int{}
+	for _, o := range res.Obls {
+		counts[string(o.Verdict)]++
+	}
+	fmt.Printf("%s [%s]: %d obligations: %d discharged, %d violated, %d undecided; %d entries, load %.1fs analysis %.1fs\n", id, tier,
+		len(res.Obls), counts["discharged"], counts["violated"], counts["undecided"], len(res.Ctxs), loadWall, res.Wall)
+	if verbose {
+		obls := append([]*rules.Obligation(nil), res.Obls...)
+		sort.SliceStable(obls, func(i, j int) bool { return obls[i].Rule < obls[j].Rule })
+		for _, o := range obls {
+			fmt.Printf("  %-10s %-9s %-60s %s\n      %s\n", o.Verdict, o.Rule, o.Construct, o.Pos, o.Detail)
+		}
+	}
+	for _, o := range res.Known {
+		fmt.Printf("KNOWN-FINDING: property=%s %s %s: %s\n", id, o.Rule, o.Construct, o.Detail)
+	}
+	for i, o := range res.Violations {
+		fmt.Printf("%s %s %s at %s\n    %s\n", strings.ToUpper(string(o.Verdict)), o.Rule, o.Construct, o.Pos, o.Detail)
+		for _, w := range o.Witness {
+			fmt.Println("      ", w)
+		}
+		fmt.Printf("VIOLATION property=%s replay=%s\n", id, replays[i])
+	}
+	if len(res.Violations) > 0 {
+		return 1
+	}
+	return 0
 }
